@@ -3404,7 +3404,8 @@ impl Server {
         let sha1 = match &parts[1] {
             RespFrame::BulkString(Some(bytes)) => {
                 match std::str::from_utf8(bytes) {
-                    Ok(s) => s.to_string(),
+                    // Digests are hexadecimal: their letter case does not matter
+                    Ok(s) => s.to_ascii_lowercase(),
                     Err(_) => return Ok(RespFrame::error("ERR invalid SHA1 hash")),
                 }
             }
@@ -3476,7 +3477,7 @@ impl Server {
                     let sha1 = match &parts[i] {
                         RespFrame::BulkString(Some(bytes)) => {
                             match std::str::from_utf8(bytes) {
-                                Ok(s) => s.to_string(),
+                                Ok(s) => s.to_ascii_lowercase(),
                                 Err(_) => {
                                     results.push(RespFrame::Integer(0));
                                     continue;
